@@ -35,7 +35,7 @@ def build_harness(wd, prop, sanitize=True):
     for f in ["config.c", "log.c", "set.c", "common.c", "bitset.c", "accumulators.c", "git-version.c"]:
         srcs.append(os.path.join(r, "src", f))
     path, log = core.compile_c(wd, "h_proto" if sanitize else "h_proto_plain", srcs, sanitize=sanitize,
-                               libs=["-levent", "-lm", "-Wl,--wrap=event_new,--wrap=event_free"])
+                               libs=["-levent", "-lm", "-Wl,--wrap=event_new,--wrap=event_free,--wrap=event_base_once"])
     if path:
         os.makedirs(os.path.join(wd, "run"), exist_ok=True)
     return path, log
@@ -1097,6 +1097,14 @@ def gen_cases(prop, tier, seed):
                 if rng.random() < 0.3:
                     mixed.append(inl(rng.choice(JUNK)))
                     marks.append(len(mixed) - 1)
+                raw = unhx(l.split(" ")[1])
+                if raw.startswith((b"-1 X ", b"-1 x ")) and raw.count(b"\n") == 1 and rng.random() < 0.5:
+                    # a malformed reply that is addressed exactly like the real one that follows:
+                    # same service and routing tag, but cut off before its text parameter
+                    t = raw.rstrip(b"\n").split(b" ")
+                    if len(t) >= 5:
+                        mixed.append(inl(b" ".join(t[:4]) + rng.choice([b"", b" "])))
+                        marks.append(len(mixed) - 1)
                 mixed.append(l)
             cases.append(Case("c08/%d/junk" % i, head + mixed + ["eof"],
                               tags={"group": "c08/%d" % i, "role": "junk", "junk": marks, "hl": hl}))
